@@ -1,5 +1,6 @@
 """Trace (and optionally kill at) the file operations a piece of code performs: open for writing,
-write, flush/fsync, close, os.replace/os.rename, os.makedirs.  Paths are reported relative to a
+write, flush/fsync, close, os.replace/os.rename, os.makedirs, os.remove/os.unlink (a save that removes a file is not one of the
+model's atomic shapes: the regenerated trace then does not even type-check).  Paths are reported relative to a
 `final` path: 0 = the final file, 1.. = other files in order of first appearance."""
 import builtins
 import os
@@ -40,6 +41,7 @@ class Tracer(object):
     def __enter__(self):
         tr = self
         real_open, real_replace, real_rename, real_makedirs, real_fsync = builtins.open, os.replace, os.rename, os.makedirs, os.fsync
+        real_remove, real_unlink = os.remove, os.unlink
 
         class F(object):
             def __init__(self, f, i):
@@ -93,12 +95,16 @@ class Tracer(object):
 
         def fsync(fd):
             return real_fsync(fd)
-        self._saved = (real_open, real_replace, real_rename, real_makedirs, real_fsync)
-        builtins.open, os.replace, os.rename, os.makedirs, os.fsync = open_, replace, rename, makedirs, fsync
+
+        def remove(path, *a, **kw):
+            tr._point(("remove", tr.pid(path)))
+            return real_remove(path, *a, **kw)
+        self._saved = (real_open, real_replace, real_rename, real_makedirs, real_fsync, real_remove, real_unlink)
+        builtins.open, os.replace, os.rename, os.makedirs, os.fsync, os.remove, os.unlink = open_, replace, rename, makedirs, fsync, remove, remove
         return self
 
     def __exit__(self, *a):
-        builtins.open, os.replace, os.rename, os.makedirs, os.fsync = self._saved
+        builtins.open, os.replace, os.rename, os.makedirs, os.fsync, os.remove, os.unlink = self._saved
 
 
 def lean_op(op):
